@@ -11,6 +11,7 @@ import (
 	"runtime"
 	"sort"
 	"strconv"
+	"strings"
 	"sync"
 	"testing"
 
@@ -173,6 +174,8 @@ type Failure struct {
 }
 
 func Failf(sig, format string, args ...any) *Failure {
+	// a signature is one token (the driver parses "sig=<token> replay=<path>")
+	sig = strings.Join(strings.Fields(sig), "-")
 	return &Failure{Sig: sig, Msg: fmt.Sprintf(format, args...)}
 }
 
